@@ -617,6 +617,10 @@ def run_file_case(ctx, case, n):
                  "inputVariants": iv} for (chrom, _, s), iv, r in zip(queries, qmeta, real_pi)]
         n_reads = 0
         for (chrom, _, s), r, ans in zip(queries, real_pi, ctx.model.ask_many(reqs)):
+            if "crash" in r:
+                h.fail(f"PhasedInputReader.read({chrom}, …, {s}) raises {r['crash']} on phase-input VCFs that whatshap's reader accepts",
+                       "phase-input-crash", "P")
+                continue
             if "reads" not in ans:
                 ctx.disagree("c09.phaseinput", case, "ok", ans); continue
             lean = sorted([x["name"], x["source_id"], x["sample_id"], x["variants"]] for x in ans["reads"])
@@ -665,7 +669,9 @@ def run_file_case(ctx, case, n):
                                   "records": [R.model_record(recs[i], psamples) for i in idxs]} for (c, ts), (_, idxs) in zip(plan, blocks)])
         mrecs = [(o["record"], None) for x in xs for o in x]
         merr = any(o["err"] for x in xs for o in x)
-    if err or merr:
+    if err and err.startswith("crash:"):
+        h.fail(f"PhasedVcfWriter.write raises {err[6:]}", "writer-crash", "W")
+    elif err or merr:
         if bool(err) != bool(merr):
             ctx.disagree("writer KeyError (record without GT)", case, err, merr)
     elif mrecs is None:
